@@ -168,6 +168,23 @@ def rule_reverse_table(ctx: Ctx) -> None:
                      f"under reverse=True run_circuit applies `{rv}` for tag '{tag}', which is not the inverse of the forward gate `{fwd}`: "
                      f"replaying an inverse circuit backwards does not reproduce the state", func="run_circuit",
                      construct=f"run_circuit: '{tag}' reverse -> {rv}")
+    # every dispatched call hands over the tableau and then the entry's qubit positions in their order: f(tableau, e[1][, e[2]])
+    tabp = func_params(fn)[0]
+    lp_ = next((l for l in fn.body if isinstance(l, ast.For)), None)
+    if lp_ is not None:
+        ev_ = norm(lp_.target)
+        gate_fns = {f for pair in table.values() for f in pair if f and f != "identity"}
+        for c in [x for x in ast.walk(lp_) if isinstance(x, ast.Call)]:
+            nm_ = call_attr(c) or (c.func.id if isinstance(c.func, ast.Name) else None)
+            is_table_call = isinstance(c.func, ast.Subscript)
+            if nm_ in gate_fns or is_table_call:
+                args = [norm(a) for a in c.args]
+                want = [tabp] + [f"{ev_}[{i}]" for i in range(1, len(args))]
+                if args == want and len(args) in (2, 3):
+                    ctx.ok("reverse.table", m, c, what="arguments (tableau, positions in order)")
+                else:
+                    ctx.fail("reverse.table", m, c, f"run_circuit calls `{short(c)}`; a gate entry (tag, q1[, q2]) is applied as f({tabp}, {ev_}[1][, {ev_}[2]]) — "
+                             f"control and target in the order of the entry", func="run_circuit", construct=f"run_circuit: arguments of {short(c.func, 30)}")
     # the list is reversed on the reverse path
     revp = [p for p in func_params(fn) if "reverse" in p][0]
     ok = False
@@ -568,6 +585,7 @@ def _swap_blocks(src: str) -> str:
 
 
 KNOCKOUTS = [
+    Knockout("run-circuit-cnot-arguments-swapped", TR, sub_once("            tableau = cnot_gate(tableau, ops[1], ops[2])", "            tableau = cnot_gate(tableau, ops[2], ops[1])"), "reverse.table", "arguments"),
     Knockout("cz-block-condition-or", STABF, sub_once("            if tableau.x_matrix[j, k] == 0 and tableau.z_matrix[j, k] == 1:\n                circuit_list.append((\"CZ\", j, k))", "            if tableau.x_matrix[j, k] == 0 or tableau.z_matrix[j, k] == 1:\n                circuit_list.append((\"CZ\", j, k))"), "inverse.block-conditions", "CZ block"),
     Knockout("cnot-block-inner-range", STABF, sub_nth("        for k in range(j + 1, n_qubits):\n            if tableau.x_matrix[j, k] == 1:", "        for k in range(j, n_qubits):\n            if tableau.x_matrix[j, k] == 1:", 0), "inverse.block-conditions", "CNOT block"),
     Knockout("hadamard-block-on-y", STABF, sub_once("        if tableau.x_matrix[j, j] == 1 and tableau.z_matrix[j, j] == 0:", "        if tableau.x_matrix[j, j] == 1 and tableau.z_matrix[j, j] == 1:") if False else sub_once("        if tableau.x_matrix[j, j] == 1 and tableau.z_matrix[j, j] == 0:\n            circuit_list.append((\"H\", j))", "        if tableau.x_matrix[j, j] == 1:\n            circuit_list.append((\"H\", j))"), "inverse.block-conditions", "H block"),
